@@ -39,11 +39,11 @@ def _scenario(draw, tier):
             if draw(st.integers(0, 5)) == 0:
                 ops.append(["restart"])
             elif cfg["kind"] == "ensemble":
-                ops.append(["advance", draw(st.one_of(st.sampled_from([0, 1, 2, 3]), st.integers(0, 25)))])
+                ops.append(["advance", lc.maybe_long(draw, draw(st.one_of(st.sampled_from([0, 1, 2, 3]), st.integers(0, 25))), cfg)])
             elif draw(st.integers(0, 3)) == 0:
                 ops.append(["step"])
             else:
-                ops.append(["advance", draw(lc.advance_sizes())])
+                ops.append(["advance", lc.maybe_long(draw, draw(lc.advance_sizes()), cfg)])
         return dict(mode=mode, cfg=cfg, ops=ops)
     if mode == "pool":
         n = draw(st.integers(1, 5))
@@ -90,11 +90,15 @@ def _scenario(draw, tier):
     temps = [1.0]
     for _ in range(n - 1):
         temps.append(round(temps[-1] * draw(st.sampled_from([2.0, 3.0])), 3))
-    cost = draw(st.sampled_from([0.05, 0.3, 2.0, 20.0]))
+    cost = draw(st.sampled_from([0.05, 0.3, 2.0, 20.0, 600.0]))  # (600 s per evaluation: budgets beyond a day)
+    if cost == 600.0 and tier != "thorough":
+        # a worker waiting for a slower one polls every 0.05 simulated s: day-long budgets with several chains cost
+        # millions of yield points each - quick tier: single-chain ladders only
+        n, temps = 1, [1.0]
     sc = dict(chain=draw(st.sampled_from(["gibbs", "pca", "hmc"])), n=n, d=draw(st.integers(1, 2)),
               target=dict(kind="gauss", d=None), temps=temps, bounded=False, same_start=draw(st.booleans()),
               seed=draw(st.integers(0, 2 ** 32 - 1)), display=draw(st.booleans()),
-              ops=[["run_for", draw(st.sampled_from([0.0, 0.01, 0.1, 0.5, 2.0])) * cost, draw(st.sampled_from([1, 2, 5]))]],
+              ops=[["run_for", draw(st.sampled_from([0.0, 0.01, 0.1, 0.5, 2.0, 2.5, 5.0])) * cost, draw(st.sampled_from([1, 2, 5]))]],
               snap=True, scheds=[], eval_cost=cost, hmc_steps=2, pca_update=7, shutdown=True)
     sc["target"]["d"] = sc["d"]
     return dict(mode=mode, pt=sc, sched=dict(seed=draw(st.integers(0, 2 ** 31 - 1)), stall_p=draw(st.sampled_from([0.0, 0.02])),
